@@ -8,7 +8,8 @@ import Mathlib.LinearAlgebra.Matrix.Kronecker
   trace, self-adjointness for the trace form, behaviour on Kronecker products);
 * transport to composite indices `Fin (dA * dB)` along `finProdFinEquiv` (`i = a·dB + b`): `pTBf`, `pTAf`, `pTf`, `kronF`;
 * the bridge from the executable `Toq.PPTDisc.pTB`/`pTA`/`pT` on exact matrices;
-* weak duality for any trace-self-adjoint positivity constraint and soundness of the core checkers.
+* weak duality for any trace-self-adjoint positivity constraint and soundness of the core checkers;
+* the constraints of level 2 of the symmetric-extension hierarchy (`SymExt2`) and their satisfaction by product operators.
 -/
 
 open Matrix
@@ -323,4 +324,132 @@ theorem checkPPTDualFn_sound (sys k : Nat) (ρ : Fin k → EMat (dA * dB) (dA * 
 
 end Sound
 
+/-! ## Level 2 of the symmetric-extension hierarchy (index triples `(x, y, y₂)`), product operators are feasible -/
+
+section SymExt2
+variable {m n : Type*} [Fintype m] [Fintype n] [DecidableEq m] [DecidableEq n]
+
+/-- trace out the last factor of `X ⊗ Y ⊗ Y₂` -/
+def ptrace3 (X : Matrix (m × n × n) (m × n × n) ℂ) : Matrix (m × n) (m × n) ℂ :=
+  fun i j => ∑ c, X (i.1, i.2, c) (j.1, j.2, c)
+
+/-- the operator exchanging the two copies `Y ⊗ Y₂` -/
+def swapOp (n : Type*) [DecidableEq n] : Matrix (n × n) (n × n) ℂ := fun i j => if i.1 = j.2 ∧ i.2 = j.1 then 1 else 0
+
+/-- projection onto the symmetric subspace of `Y ⊗ Y₂` -/
+noncomputable def symProj2 (n : Type*) [DecidableEq n] : Matrix (n × n) (n × n) ℂ := (1 / 2 : ℂ) • (1 + swapOp n)
+
+/-- partial transpose on the first factor `X` of `X ⊗ Y ⊗ Y₂` -/
+def pT3X (X : Matrix (m × n × n) (m × n × n) ℂ) : Matrix (m × n × n) (m × n × n) ℂ :=
+  fun i j => X (j.1, i.2) (i.1, j.2)
+
+/-- partial transpose on the last factor `Y₂` of `X ⊗ Y ⊗ Y₂` -/
+def pT3Y2 (X : Matrix (m × n × n) (m × n × n) ℂ) : Matrix (m × n × n) (m × n × n) ℂ :=
+  fun i j => X (i.1, i.2.1, j.2.2) (j.1, j.2.1, i.2.2)
+
+/-- the constraints toqito's `symmetric_extension_hierarchy(level=2)` puts on one measurement operator `M`:
+a positive semidefinite extension `X` on `X ⊗ Y ⊗ Y₂` with marginal `M`, supported on the symmetric subspace
+of the two copies, with positive semidefinite partial transposes on `X` and on `Y₂` -/
+def SymExt2 (M : Matrix (m × n) (m × n) ℂ) : Prop :=
+  ∃ X : Matrix (m × n × n) (m × n × n) ℂ, X.PosSemidef ∧ ptrace3 X = M ∧
+    ((1 : Matrix m m ℂ) ⊗ₖ symProj2 n) * X * ((1 : Matrix m m ℂ) ⊗ₖ symProj2 n) = X ∧
+    (pT3X X).PosSemidef ∧ (pT3Y2 X).PosSemidef
+
+omit [Fintype m] [DecidableEq m] in
+theorem swapOp_mul (Z : Matrix (n × n) (n × n) ℂ) (i j : n × n) :
+    (swapOp n * Z) i j = Z (i.2, i.1) j := by
+  simp only [Matrix.mul_apply, swapOp]
+  rw [Finset.sum_eq_single (i.2, i.1)]
+  · simp
+  · intro b _ hb
+    have : ¬ (i.1 = b.2 ∧ i.2 = b.1) := by
+      rintro ⟨h1, h2⟩; exact hb (Prod.ext h2.symm h1.symm)
+    simp [this]
+  · simp
+
+omit [Fintype m] [DecidableEq m] in
+theorem mul_swapOp (Z : Matrix (n × n) (n × n) ℂ) (i j : n × n) :
+    (Z * swapOp n) i j = Z i (j.2, j.1) := by
+  simp only [Matrix.mul_apply, swapOp]
+  rw [Finset.sum_eq_single (j.2, j.1)]
+  · simp
+  · intro b _ hb
+    have : ¬ (b.1 = j.2 ∧ b.2 = j.1) := by
+      rintro ⟨h1, h2⟩; exact hb (Prod.ext h1 h2)
+    simp [this]
+  · simp
+
+omit [Fintype m] [DecidableEq m] in
+/-- `b bᴴ ⊗ b bᴴ` is fixed by the projection onto the symmetric subspace -/
+theorem symProj2_rankOne (b : n → ℂ) :
+    symProj2 n * (vecMulVec b (star b) ⊗ₖ vecMulVec b (star b)) * symProj2 n
+      = vecMulVec b (star b) ⊗ₖ vecMulVec b (star b) := by
+  have hl : swapOp n * (vecMulVec b (star b) ⊗ₖ vecMulVec b (star b))
+      = vecMulVec b (star b) ⊗ₖ vecMulVec b (star b) := by
+    ext i j
+    rw [swapOp_mul]
+    simp only [Matrix.kroneckerMap_apply, Matrix.vecMulVec_apply]
+    ring
+  have hr : (vecMulVec b (star b) ⊗ₖ vecMulVec b (star b)) * swapOp n
+      = vecMulVec b (star b) ⊗ₖ vecMulVec b (star b) := by
+    ext i j
+    rw [mul_swapOp]
+    simp only [Matrix.kroneckerMap_apply, Matrix.vecMulVec_apply]
+    ring
+  have h2 : ((1 / 2 : ℂ) * 2) = 1 := by norm_num
+  have hl' : symProj2 n * (vecMulVec b (star b) ⊗ₖ vecMulVec b (star b))
+      = vecMulVec b (star b) ⊗ₖ vecMulVec b (star b) := by
+    unfold symProj2
+    rw [Matrix.smul_mul, Matrix.add_mul, Matrix.one_mul, hl, ← two_smul ℂ, smul_smul, h2, one_smul]
+  have hr' : (vecMulVec b (star b) ⊗ₖ vecMulVec b (star b)) * symProj2 n
+      = vecMulVec b (star b) ⊗ₖ vecMulVec b (star b) := by
+    unfold symProj2
+    rw [Matrix.mul_smul, Matrix.mul_add, Matrix.mul_one, hr, ← two_smul ℂ, smul_smul, h2, one_smul]
+  rw [hl', hr']
+
+omit [Fintype m] [DecidableEq m] [DecidableEq n] in
+theorem ptrace3_add (X Y : Matrix (m × n × n) (m × n × n) ℂ) : ptrace3 (X + Y) = ptrace3 X + ptrace3 Y := by
+  ext i j; simp [ptrace3, Finset.sum_add_distrib]
+
+theorem symExt2_zero : SymExt2 (0 : Matrix (m × n) (m × n) ℂ) :=
+  ⟨0, Matrix.PosSemidef.zero, by ext i j; simp [ptrace3], by simp,
+    by rw [show pT3X (0 : Matrix (m × n × n) (m × n × n) ℂ) = 0 from rfl]; exact Matrix.PosSemidef.zero,
+    by rw [show pT3Y2 (0 : Matrix (m × n × n) (m × n × n) ℂ) = 0 from rfl]; exact Matrix.PosSemidef.zero⟩
+
+theorem symExt2_add {M N : Matrix (m × n) (m × n) ℂ} (hM : SymExt2 M) (hN : SymExt2 N) : SymExt2 (M + N) := by
+  obtain ⟨X, hX, hXM, hXs, hX1, hX2⟩ := hM
+  obtain ⟨Y, hY, hYN, hYs, hY1, hY2⟩ := hN
+  refine ⟨X + Y, hX.add hY, by rw [ptrace3_add, hXM, hYN], ?_, ?_, ?_⟩
+  · rw [Matrix.mul_add, Matrix.add_mul, hXs, hYs]
+  · rw [show pT3X (X + Y) = pT3X X + pT3X Y from rfl]; exact hX1.add hY1
+  · rw [show pT3Y2 (X + Y) = pT3Y2 X + pT3Y2 Y from rfl]; exact hX2.add hY2
+
+theorem symExt2_sum {ι : Type*} (s : Finset ι) (M : ι → Matrix (m × n) (m × n) ℂ)
+    (h : ∀ j ∈ s, SymExt2 (M j)) : SymExt2 (∑ j ∈ s, M j) := by
+  classical
+  induction s using Finset.induction_on with
+  | empty => simpa using symExt2_zero
+  | insert a s ha ih =>
+    rw [Finset.sum_insert ha]
+    exact symExt2_add (h a (Finset.mem_insert_self a s)) (ih fun j hj => h j (Finset.mem_insert_of_mem hj))
+
+/-- a product operator `A ⊗ b bᴴ` (`A ⪰ 0`, `‖b‖ = 1`) has the level-2 extension `A ⊗ b bᴴ ⊗ b bᴴ` -/
+theorem symExt2_product {A : Matrix m m ℂ} (hA : A.PosSemidef) (b : n → ℂ) (hb : b ⬝ᵥ star b = 1) :
+    SymExt2 (A ⊗ₖ vecMulVec b (star b)) := by
+  have hB : (vecMulVec b (star b)).PosSemidef := Matrix.posSemidef_vecMulVec_self_star b
+  refine ⟨A ⊗ₖ (vecMulVec b (star b) ⊗ₖ vecMulVec b (star b)), hA.kronecker (hB.kronecker hB), ?_, ?_, ?_, ?_⟩
+  · ext i j
+    simp only [ptrace3, Matrix.kroneckerMap_apply, Matrix.vecMulVec_apply, Pi.star_apply]
+    rw [← Finset.mul_sum, ← Finset.mul_sum]
+    have : ∑ c, b c * star (b c) = 1 := by simpa [dotProduct] using hb
+    rw [this, mul_one]
+  · rw [← Matrix.mul_kronecker_mul, ← Matrix.mul_kronecker_mul, Matrix.one_mul, Matrix.mul_one, symProj2_rankOne]
+  · have : pT3X (A ⊗ₖ (vecMulVec b (star b) ⊗ₖ vecMulVec b (star b)))
+        = Aᵀ ⊗ₖ (vecMulVec b (star b) ⊗ₖ vecMulVec b (star b)) := rfl
+    rw [this]; exact hA.transpose.kronecker (hB.kronecker hB)
+  · have : pT3Y2 (A ⊗ₖ (vecMulVec b (star b) ⊗ₖ vecMulVec b (star b)))
+        = A ⊗ₖ (vecMulVec b (star b) ⊗ₖ (vecMulVec b (star b))ᵀ) := rfl
+    rw [this]; exact hA.kronecker (hB.kronecker hB.transpose)
+
+end SymExt2
 end Toq.PPTDisc
